@@ -47,13 +47,15 @@ class ADMTrig(Spacetime):
 
     def __init__(self, seed, eps=0.15, shift=1.0, lapse=1.0, static=False,
                  diagonal=False, shear=0.0, scale=None, kmax=1.0, nterms=2,
-                 period=None):
+                 period=None, shift_x0=False):
         rng = np.random.default_rng([int(seed), 101])
         kmask = [0 if static else 1, 1, 1, 1]
         R = lambda amp: Trig.random(rng, 4, nterms, amp, kmax, kmask=kmask,
                                     period=period)
         self.a = R(eps * lapse)
         self.b = [R(eps * shift) for _ in range(3)]
+        if shift_x0:          # beta^x vanishes identically
+            self.b[0] = Trig(0.0, [], np.zeros((0, 4)), [])
         self.h = [[None] * 3 for _ in range(3)]
         for i in range(3):
             for j in range(i, 3):
@@ -68,7 +70,7 @@ class ADMTrig(Spacetime):
         self.opts = dict(seed=int(seed), eps=eps, shift=shift, lapse=lapse,
                          static=static, diagonal=diagonal, shear=shear,
                          scale=None if scale is None else list(scale),
-                         kmax=kmax, period=period)
+                         kmax=kmax, period=period, shift_x0=shift_x0)
 
     def describe(self):
         return {"family": self.name, **self.opts}
